@@ -241,6 +241,10 @@ def rstep (s : RSt) (tok : String) : Except String RSt :=
 
 def handleRI (toks : List String) : String :=
   match toks with
+  | ["marshal", renders, panics] =>
+    -- C09: rendering the debug state while the region's client is being set and cleared
+    if panics = "panics=0" then s!"OK tags=ri,marshal"
+    else s!"SPEC key=panic-debug-state {panics} of {renders} (region info MarshalJSON crashed while the client was being changed)"
   | ["conc", g, _rounds, winners, st] =>
     -- C09: `MarkUnavailable` returns true to exactly one of the concurrent callers
     if winners = "winners=1..1" && st = "ok" then s!"OK tags=ri,conc,{g}"
